@@ -120,7 +120,7 @@ with trw_stat (flv slv : Z) (s : stat) (st : tstate) {struct s} : tstate :=
   | SWhile e b l => pop (trw_block flv (slv + 1) b (push l (trw_exp flv e st)))
   | SRepeat b e l => pop (trw_exp flv e (trw_block flv (slv + 1) b (push l st)))
   | SForNum n vl e1 e2 e3 b l =>
-    let st1 := trw_exp flv e2 (trw_exp flv e3 (trw_exp flv e1 (push l st))) in
+    let st1 := trw_exp flv e3 (trw_exp flv e2 (trw_exp flv e1 (push l st))) in
     pop (trw_block flv (slv + 1) b (add_var (mkV n vl RNone false) st1))
   | SForIn ns ls es b l =>
     let st1 := apply_all (map (fun e => trw_exp flv e) es) (push l st) in
